@@ -239,7 +239,11 @@ impl Scenario for Clones {
         let handles = r.range(2, 4) as usize;
         let scripts = gen_scripts(&mut r, &l, handles);
         let faults = if Rng::derive(s, "swarm").chance(1, 3) { gen_handle_faults(&mut Rng::derive(s, "faults"), handles) } else { vec![] };
-        let case = CloneCase { layout: l, scripts, sched_seed: Rng::derive(s, "schedule").next_u64(), policy: gen_policy_short(&mut Rng::derive(s, "io")), faults };
+        // The source never fragments its reads here: how many bytes a decoder hands out before it reports a
+        // corrupt stream (wrong password that passed the check byte, say) depends on how its input was chunked,
+        // and a clone's reader starts a fresh chunking schedule - that is C09's subject, not a difference
+        // between "interleaved" and "alone" (false alarm under VERIF_SEED=3 and 5 with short-read policies).
+        let case = CloneCase { layout: l, scripts, sched_seed: Rng::derive(s, "schedule").next_u64(), policy: Policy::Pure, faults };
         serde_json::to_value(case).unwrap_or(Value::Null)
     }
     fn run(&self, case: &Value, ctx: &mut Ctx) -> Verdict {
